@@ -256,6 +256,16 @@ pub mod shim {
                 (*old(self)).infallible() ==> r is Ok,
         { unimplemented!() }
         #[verifier::external_body]
+        fn write_u32_be(&mut self, v: u32) -> (r: std::io::Result<()>)
+            ensures
+                (*final(self)).snk_eq(&*old(self)),
+                (*final(self)).infallible() == (*old(self)).infallible(),
+                r is Ok ==> (*final(self)).written() == (*old(self)).written() + enc_be32(v),
+                r is Err ==> (*old(self)).written().is_prefix_of((*final(self)).written())
+                    && (*final(self)).written().is_prefix_of((*old(self)).written() + enc_be32(v)),
+                (*old(self)).infallible() ==> r is Ok,
+        { unimplemented!() }
+        #[verifier::external_body]
         fn write_u32_le(&mut self, v: u32) -> (r: std::io::Result<()>)
             ensures
                 (*final(self)).snk_eq(&*old(self)),
@@ -361,6 +371,8 @@ pub fn u16_to_be_bytes(x: u16) -> (r: [u8; 2])
 // common Option combinators without a vstd specification (widen the accepted subset)
 pub assume_specification<T, U, F: FnOnce(T) -> U> [Option::<T>::map_or] (o: Option<T>, default: U, f: F) -> (r: U)
     ensures match o { Some(x) => f.ensures((x,), r), None => r == default };
+pub assume_specification<T, E, U, F: FnOnce(T) -> U> [Result::<T, E>::map_or] (o: Result<T, E>, default: U, f: F) -> (r: U)
+    ensures match o { Ok(x) => f.ensures((x,), r), Err(_) => r == default };
 pub assume_specification<T> [Option::<Option<T>>::flatten] (o: Option<Option<T>>) -> (r: Option<T>)
     ensures r == (match o { Some(x) => x, None => None });
 
@@ -384,6 +396,21 @@ pub fn mul_or_panic(a: usize, b: usize) -> (r: usize)
     requires a * b <= usize::MAX,
     ensures r == a * b,
 { a.checked_mul(b).unwrap() }
+// std::io::empty(): a reader that is always at its end
+#[verifier::external_type_specification]
+#[verifier::external_body]
+pub struct ExIoEmpty(std::io::Empty);
+pub assume_specification [std::io::empty] () -> (r: std::io::Empty);
+impl ReadSpecImpl for std::io::Empty {
+    open spec fn remaining(&self) -> Seq<u8> { Seq::<u8>::empty() }
+    open spec fn reliable(&self) -> bool { true }
+    open spec fn greedy(&self) -> bool { true }
+    #[verifier::prophetic]
+    open spec fn src_eq(&self, o: &Self) -> bool { true }
+}
+impl BufReadSpecImpl for std::io::Empty {
+    open spec fn buffered(&self) -> nat { 0 }
+}
 // R16: io::Error::new(kind, msg) -> io_error_stub(): kind and message of an io::Error are not modelled
 #[verifier::external_body]
 pub fn io_error_stub() -> std::io::Error { std::io::Error::new(std::io::ErrorKind::Other, "") }
